@@ -52,7 +52,7 @@ ASSUMPTIONS = ['IEEE rounding is not modelled: responses compared within 1e-9 of
                'in mJy exactly (rationals) on the harness side',
                'SED.write/SED.read round trip of the package (C12) is taken as is: the model receives the fluxes '
                'the harness generated, ordered by the frequencies it computed with astropy']
-N = {'quick': 1000, 'thorough': 20000}
+N = {'quick': 1000, 'thorough': 60000}
 C_UM_HZ = 2.99792458e14          # only used to place grids relative to a filter given in micron
 SIZES_F = [2, 2, 3, 3, 4, 5, 6, 8, 10, 12, 16, 20, 30, 45, 60]
 GRID_KINDS = ['cover_coarse', 'cover_fine', 'partial_low', 'partial_high', 'inside', 'any']
